@@ -542,6 +542,10 @@ func propPermutation(t *rapid.T, c *curve) {
 			} else {
 				rep.Case(test, fs+" z=0", false, "permutation", "transcript_model_unavailable")
 			}
+			// challenge binding: adaptive provers that know omega before z / eta before q
+			gA := feltBig(acc(a.Elem().FieldByName("g")))
+			permBindingCustom(t, c, test, t1, f2, gA, "omega")
+			permBindingCustom(t, c, test, t1, f2, gA, "eta")
 		}
 	}
 
@@ -568,6 +572,9 @@ func propPermutation(t *rapid.T, c *curve) {
 			rep.Case(test, ds, false, "permutation", "forgery:degenerate_generator|construction_unavailable")
 		}
 	}
+
+	// challenge binding: eps must depend on both commitments (the library's own prover, adaptive inputs)
+	permBindingEps(t, c, test, n)
 
 	// (2a) reflective tampering; the second honest proof feeds the "other" substitutions
 	var b reflect.Value
